@@ -15,6 +15,7 @@ public:
       , _u(_n)
       , _w(_n)
       , _p(_n * _n) {
+        DSPLIB_ASSERT(filter_len > 0, "filter_len must be positive");
         for (auto i = 0; i < _n; i++) {
             _p[i * _n + i] = diag_load;
         }
